@@ -35,11 +35,11 @@ def cases(seed, tier, shard, nshards):
     for _ in range(cfg['n'] // nshards):
         if rng.random() < 0.12:
             # fused aromatic systems (naphthalene, quinoline, anthracene, phenanthrene skeletons) written in lower case
-            case = MC.random_cut_case(rng, rng.choice([10, 14, 18]), mol_kw=dict(p_arom=0.95, p_fused=0.8))
+            case = MC.random_cut_case(rng, rng.choice([10, 14, 18]), mol_kw=dict(p_arom=0.95, p_fused=0.8), implicit_biaryl=0.5)
             if case is not None:
                 case['features'] = sorted(set(case['features']) | {'fused_aromatic_rings'})
         else:
-            case = MC.random_cut_case(rng, rng.choice(cfg['max_heavy']))
+            case = MC.random_cut_case(rng, rng.choice(cfg['max_heavy']), implicit_biaryl=0.5)
         if case is not None:
             yield case
 
@@ -66,6 +66,16 @@ def run(case):
             viol.append(V('c01.cut_exception', f"{alt}.{case['frag_string']} raised {r2['error']}"))
         elif r2['problems'] or not M.same_molecule(r2['heavy'], truth):
             viol.append(V('c01.base_spelling_dependent', f"{alt}.{case['frag_string']} -> {M.describe(r2['heavy'])}; the same fragments under {case['base_string']} / the uncut molecule give {M.describe(truth)}"))
+    sib = case.get('sibling')
+    if sib and not viol:
+        # history: the same text with ONE descriptor on another atom, resolved right after; it denotes another molecule
+        t2 = MC.truth_from_json(sib['truth'])
+        r3 = MC.resolve_case(dict(case, frag_string=sib['frag_string']))
+        if r3['error']:
+            viol.append(V('c01.cut_exception', f"{case['base_string']}.{sib['frag_string']} ({sib['moved']}, resolved after {case['frag_string']}) raised {r3['error']}"))
+        elif r3['problems'] or not M.same_molecule(r3['heavy'], t2):
+            viol.append(V('c01.cut_vs_truth', f"{case['base_string']}.{sib['frag_string']} ({sib['moved']}, resolved right after {case['frag_string']}) -> {M.describe(r3['heavy'])} {r3['problems']} "
+                          f"but these fragments denote {M.describe(t2)}"))
     feats = tuple(sorted(f for f in case['features']))
     return {'violations': viol, 'nontrivial': case['ncuts'] > 0, 'cls': (feats, case['nheavy'], case['nfrag']),
             'sample': MC.case_text(case)}
